@@ -84,7 +84,7 @@ def main():
         setup_cmd="./check build all",
         hooks=dict(
             guard="sux_verif",
-            enable="RUSTFLAGS --cfg sux_verif via /verif/sim/.cargo/config.toml; /verif/sim/sux/Cargo.toml is a shadow manifest whose [lib] path is /repo/src/lib.rs (adds verif_rt; crossbeam-channel and thread-priority replaced through [patch.crates-io])",
+            enable="RUSTFLAGS --cfg sux_verif via /verif/sim/.cargo/config.toml; /verif/sim/sux/Cargo.toml is a shadow manifest whose [lib] path is /repo/src/lib.rs (adds verif_rt; crossbeam-channel, thread-priority and common_traits replaced by simulation shims through [patch.crates-io]); a second cfg, sux_verif_stdatomic, only ever narrows the hooks (fallback build that keeps the std atomic types)",
             baseline_off_cmd="cd /repo && cargo nextest run --workspace --no-fail-fast --test-threads 8 --offline || cargo test --workspace --no-fail-fast --offline",
             source_commits=repo_commits("verif hooks"),
             add_only=True,
